@@ -244,7 +244,7 @@ Definition kind_bit (a : answer) : N :=
    property predicate still turns the disagreement into a failing input *)
 Record fstate := { f_prev : db; f_log : list grant; f_now : N; f_idx : N; f_mask : N; f_diff : option (N * N) }.
 
-(* which: 1 = C01, 9 = C09, 10 = C10 *)
+(* which: 1 = C01, 9 = C09, 10 = C10, 18 = C18 (only the restart predicate) *)
 Definition pred_of (which : N) (s : fstate) (a : ialloc) : N :=
   match which with
   | 1 => pred_C01 (f_prev s) (f_log s) a
@@ -266,6 +266,8 @@ Fixpoint fold_events (which : N) (s : fstate) (es : list ievent) : list N :=
       fold_events which {| f_prev := f_prev s; f_log := f_log s; f_now := f_now s + d; f_idx := f_idx s + 1;
                            f_mask := f_mask s; f_diff := f_diff s |} es'
   | IRestart rows :: es' =>
+      (* C18: closing and reopening the store must not lose, add or alter a lease *)
+      if (which =? 18) && negb (rows_same (f_prev s) rows) then v_viol 3 else
       fold_events which {| f_prev := rows; f_log := f_log s; f_now := f_now s; f_idx := f_idx s + 1;
                            f_mask := N.lor (f_mask s) 32;
                            f_diff := if rows_same (f_prev s) rows then f_diff s else note_diff s 3 |} es'
